@@ -4,7 +4,7 @@
    numbering, ANY order); `indices` is a slot table (RefXxx.facets / RefXxx.edges). *)
 From Coq Require Import List Arith ZArith Bool Sorted.
 Import ListNotations.
-Require Import Base.C11_Unique Model.C11_Topo Proofs.C11_TopoProofs Proofs.C11_EquivProofs Gen.C11Refdom Dyn.C11Tie.
+Require Import Base.Corr Base.C11_Unique Model.C11_Topo Proofs.C11_TopoProofs Proofs.C11_EquivProofs Gen.C11Refdom Dyn.C11Tie.
 
 (* each facet / edge appears once, as a sorted tuple, the array is in strictly increasing lexicographic order *)
 Theorem C11_entities_unique_sorted :
@@ -174,9 +174,7 @@ Qed.
 Print Assumptions C11_f2e_slotwise.
 
 (* ... and for tetrahedral meshes (tables regenerated from refdom.py) it always is: for EVERY list of cells with pairwise distinct
-   vertices, f2e[s][f] is the number IN mesh.edges of the s-th side of facet f.  (For hexahedra the same needs the two cells of a
-   facet to list its vertices in the same cyclic order — a geometric conformity assumption; there f2e is corresponded and
-   checked by the oracle.) *)
+   vertices, f2e[s][f] is the number IN mesh.edges of the s-th side of facet f.  (Hexahedra: next theorem.) *)
 Theorem C11_f2e_numbers_mesh_edges_tet :
   forall (cells : list (list nat)) (s f : nat),
     Forall (fun c => NoDup c /\ length c = tet_nnodes) cells ->
@@ -194,6 +192,41 @@ Proof.
   split; [exact E|]. intros Hs Hf. rewrite <- E. now apply t2f_slotwise.
 Qed.
 Print Assumptions C11_f2e_numbers_mesh_edges_tet.
+
+(* hexahedral meshes (unsorted cyclic facets, tables regenerated from refdom.py): IF every cell lists the four vertices of each of its
+   facets in the cyclic order of the stored facet column up to rotation / reversal (what conforming hexahedral meshes satisfy:
+   checked on every generated mesh by the oracle), THEN the edge array rebuilt from the facets IS mesh.edges, so f2e[s][f] is the
+   number in mesh.edges of side s of facet f *)
+Theorem C11_f2e_numbers_mesh_edges_hex :
+  forall (cells : list (list nat)) (s f : nat),
+    (forall s' e, s' < length hex_facets -> e < length cells ->
+       dihedral (nth (t2f_at cells hex_facets s' e) (entities hex_sortf cells hex_facets) [])
+                (slotv (nth s' hex_facets []) (nth e cells []))) ->
+    let facets := entities hex_sortf cells hex_facets in
+    entities true facets hex_bnd = entities true cells hex_edges /\
+    (s < length hex_bnd -> f < length facets ->
+     nth (nth f (nth s (mapping facets hex_bnd) []) 0) (entities true cells hex_edges) []
+       = sort_entity (slotv (nth s hex_bnd []) (nth f facets []))).
+Proof.
+  intros cells s f Hconf facets. unfold facets. revert Hconf. rewrite hex_unsorted_facets. intros Hconf.
+  assert (E : entities true (entities false cells hex_facets) hex_bnd = entities true cells hex_edges).
+  { apply f2e_numbers_mesh_edges_quad; [exact hex_bnd_cyclic | exact hex_compose_ok | exact Hconf]. }
+  split; [exact E|]. intros Hs Hf. rewrite <- E. now apply t2f_slotwise.
+Qed.
+Print Assumptions C11_f2e_numbers_mesh_edges_hex.
+
+(* the conformity hypothesis is satisfiable: two hexahedra sharing a facet, the second listing it rotated *)
+Example C11_hex_conformity_instance :
+  let cells := [[0; 1; 2; 3; 4; 5; 6; 7]; [8; 9; 10; 0; 11; 1; 2; 4]] in
+  forallb (fun s => forallb (fun e =>
+     let q := nth (t2f_at cells hex_facets s e) (entities hex_sortf cells hex_facets) [] in
+     let q' := slotv (nth s hex_facets []) (nth e cells []) in
+     match q with [a; b; c; d] => existsb (nats_eqb q') [[a; b; c; d]; [b; c; d; a]; [c; d; a; b]; [d; a; b; c];
+                                                        [d; c; b; a]; [c; b; a; d]; [b; a; d; c]; [a; d; c; b]] | _ => false end)
+     (seq 0 2)) (seq 0 6) = true /\
+  length (entities true cells hex_facets) = 11.
+Proof. vm_compute. split; reflexivity. Qed.
+Print Assumptions C11_hex_conformity_instance.
 
 (* entity keys (Mesh._sort_entities): plain sorting for slot tuples without repeated vertices (every slot of every cell type on
    cells with distinct vertices, except the padded triangles of wedges); the key of a padded triangle depends only on its vertex
@@ -266,6 +299,51 @@ Proof.
   - intros Hsi. now apply (relabel_boundary p Hinj cells idx (k_nnodes k) Hlen HB Hshape).
 Qed.
 Print Assumptions C11_renumbering_equivariant.
+
+(* ... and GLOBALLY: sigma f := rank of the renumbered key of entity f in the entity array of the renumbered mesh is a BIJECTION of
+   the entity numbers with  t2f' = sigma o t2f  (t2e likewise), the same number of entities, vertex sets mapped by p, the cells
+   containing sigma f = the cells containing f, f2t'[1][sigma f] = -1 iff f2t[1][f] = -1 (boundary facets mapped onto boundary
+   facets); composed with any permutation of the cells: a cell that is the renumbered copy of cell e has row entries sigma(t2f[s][e]). *)
+Theorem C11_renumbering_global_bijection :
+  forall (k : kind) (idx : list (list nat)) (p : nat -> nat) (cells cells2 : list (list nat)),
+    idx = k_facets k \/ idx = k_edges k ->
+    (forall a b, p a = p b -> a = b) ->
+    Forall (fun c => NoDup c /\ length c = k_nnodes k) cells ->
+    Permutation.Permutation (map (map p) cells) cells2 ->
+    let cells' := map (map p) cells in
+    let sg := sigma p cells idx in
+    length (entities true cells2 idx) = length (entities true cells idx) /\
+    (forall f, f < length (entities true cells idx) -> sg f < length (entities true cells2 idx)) /\
+    (forall f g, f < length (entities true cells idx) -> g < length (entities true cells idx) -> sg f = sg g -> f = g) /\
+    (forall f', f' < length (entities true cells2 idx) -> exists f, f < length (entities true cells idx) /\ sg f = f') /\
+    (forall s e e2, s < length idx -> e < length cells -> e2 < length cells2 -> nth e2 cells2 [] = map p (nth e cells []) ->
+       t2f_at cells2 idx s e2 = sg (t2f_at cells idx s e)) /\
+    (forall f v, f < length (entities true cells idx) ->
+       (In v (nth (sg f) (entities true cells2 idx) []) <-> exists u, In u (nth f (entities true cells idx) []) /\ v = p u)) /\
+    (forall f, f < length (entities true cells idx) ->
+       (forall e1, e1 < length cells -> (contains cells' idx (sg f) e1 <-> contains cells idx f e1)) /\
+       (slots_injective cells idx ->
+        (row1 (f2t_of cells' idx) (sg f) = (-1)%Z <-> row1 (f2t_of cells idx) f = (-1)%Z))).
+Proof.
+  intros k idx p cells cells2 Hidx Hinj Hc HP cells' sg.
+  destruct (shape_every_cell_type k idx Hidx) as [HB HS].
+  assert (Hlen : Forall (fun c => length c = k_nnodes k) cells).
+  { rewrite Forall_forall in *. intros c Hin. now apply Hc. }
+  assert (Hshape : forall ix c, In ix idx -> In c cells -> shape (slotv ix c)).
+  { intros ix c Hix Hcin. rewrite Forall_forall in Hc. destruct (Hc c Hcin) as [N L]. now apply HS. }
+  destruct (cell_order_invariant cells' cells2 idx HP) as [EE Hcell]. rewrite EE.
+  destruct (sigma_bijection p Hinj cells idx (k_nnodes k) Hlen HB Hshape) as [B [I O]].
+  split; [exact (sigma_length p Hinj cells idx (k_nnodes k) Hlen HB Hshape)|].
+  split; [exact B|]. split; [exact I|]. split; [exact O|]. split; [|split].
+  - intros s e e2 Hs He He2 Hn.
+    assert (E1 : e < length cells') by (unfold cells'; now rewrite map_length).
+    assert (E2 : nth e2 cells2 [] = nth e cells' []) by (unfold cells'; rewrite (nth_map_d (map p) cells e [] []) by exact He; exact Hn).
+    rewrite (Hcell s e e2 Hs E1 He2 E2).
+    now apply (sigma_t2f p Hinj cells idx (k_nnodes k) Hlen HB Hshape).
+  - intros f v Hf. now apply (sigma_vertices p Hinj cells idx (k_nnodes k) Hlen HB Hshape).
+  - intros f Hf. now apply (sigma_f2t p Hinj cells idx (k_nnodes k) Hlen HB Hshape).
+Qed.
+Print Assumptions C11_renumbering_global_bijection.
 
 (* ---- non-vacuity: two triangles sharing the edge {1,2}, one renumbered quadrilateral pair, a tetrahedron *)
 Example C11_two_triangles :
